@@ -351,14 +351,31 @@ fn inject(inj: &mut Inj, prog: &mut GProg, fault: &str) -> Option<(Rule, String)
         }
         "set-immutable" => {
             let imm: Vec<&Vis> = vis.iter().filter(|v| !v.mutable).collect();
-            let name = if imm.is_empty() {
+            let name = if imm.is_empty() || inj.t.chance(1, 2) {
+                // a fresh immutable, bound to a local or to a non-local value
                 let n = inj.fresh("imm");
-                stmts.push(inj.let_(&n, Expr::Int(1, 0)));
+                let value = if inj.t.chance(1, 2) {
+                    match nonlocal(inj, false) {
+                        Some((pre, e)) => {
+                            stmts.extend(pre);
+                            e
+                        }
+                        None => Expr::Int(1, 0),
+                    }
+                } else {
+                    Expr::Int(1, 0)
+                };
+                stmts.push(inj.let_(&n, value));
                 n
             } else {
                 imm[inj.t.choose(imm.len())].name.clone()
             };
-            stmts.push(Stmt::Set { id: inj.id(), var: VarRef::Plain { id: inj.id(), name: name.clone() }, value: Expr::Int(2, 0) });
+            let assigned = match inj.t.choose(3) {
+                0 => Expr::Int(2, 0),
+                1 => Expr::Str("again".into()),
+                _ => Expr::List(vec![]),
+            };
+            stmts.push(Stmt::Set { id: inj.id(), var: VarRef::Plain { id: inj.id(), name: name.clone() }, value: assigned });
             expected = (Rule::SetImmutable, name);
         }
         "set-undefined" => {
